@@ -3,11 +3,15 @@ driver — runs the Lean model on the same TSV cases the Rust harness runs on th
 `id \t kind \t field...` on stdin, `id \t result...` on stdout.
 -/
 import RuschmModel.DriverNum
+import RuschmModel.DriverText
 open Ruschm
 
 def runCase (kind : String) (fields : List String) : List String :=
   match kind with
   | "numop" => Driver.numop fields
+  | "lex" => Driver.lex fields
+  | "read" => Driver.read fields
+  | "bracket" => Driver.bracket fields
   | k => ["X unknown-kind " ++ k]
 
 partial def loop (h : IO.FS.Stream) (out : IO.FS.Stream) : IO Unit := do
